@@ -25,4 +25,5 @@ PROPERTIES
   Act_C14_Ids
   Act_Rejected_NoEffect
   Act_X14_Recipient
+  Act_X14_Fidelity
 CHECK_DEADLOCK FALSE
